@@ -108,7 +108,8 @@ class Verifier(Calls):
             return so.subclass(so.typeof(r), self.cids.cid("BaseException"))
         ci = self.repo.find_class(kind) if kind and kind not in self.reg.shapes else None
         if ci is not None:
-            return so.typeof(r) == self.cids.cid(self.class_key(ci))
+            # an instance of a repo class is not one of the abstract shape objects
+            return z3.And(so.typeof(r) == self.cids.cid(self.class_key(ci)), shape_kind(r) == 0)
         if kind in self.reg.shapes:
             # abstract objects are not builtin containers, and objects of different abstract shapes are different objects
             return z3.And([so.typeof(r) != self.cids.cid(k) for k in ("list", "set", "frozenset", "dict")]
